@@ -60,6 +60,11 @@ def g_mcase(case):
             if op[2] is not None:
                 table, vc = label_tree(op[2][0], table, vc)
             ops.append("MPopFrom %s %s" % (g_path(op[1], table), g_optjson(op[2], table)))
+        elif k == 'getstorefrom':
+            d = op[2]
+            if d[0] != 'notset':
+                table, vc = label_tree(d[-1], table, vc)
+            ops.append("MGetStoreFrom %s %s" % (g_path(op[1], table), g_default(d, table)))
         else:
             raise ValueError(k)
     return "{| m_doc0 := %s; m_nl0 := %s; m_ops := %s |}" % (g_json(case['doc'], table), g_nat(n), g_list(ops))
@@ -172,6 +177,9 @@ def gen_mcase(rng, kinds=('set', 'cascade', 'pop', 'match'), nops=None, run_impl
                 if 'pop' in kinds and kind == 'pop':
                     op2 = ('popfrom', rel, None if rng.random() < 0.6 else (gen_value(rng),))
                     eq = ('pop', loc_to_path(loc) + list(rel), op2[2])
+                elif 'cascade' in kinds and rng.random() < 0.3:
+                    op2 = ('getstorefrom', rel, rng.choice([('const', gen_value(rng)), ('call', 9, gen_value(rng)), ('notset',)]))
+                    eq = ('getstore', loc_to_path(loc) + list(rel), op2[2])
                 else:
                     op2 = ('setfrom', rel, gen_value(rng), 'cascade' in kinds)
                     eq = ('set', loc_to_path(loc) + list(rel), op2[2], op2[3], False)
